@@ -6,7 +6,7 @@
    model without it and carry it only to say where model and machine arithmetic coincide.
    ldx/ldy = end - start per axis, sgn x = 1 if 0 <= x else -1, y_major l = |dx| <= |dy|. *)
 From EG Require Import Base.Prelude Model.Geometry Model.Style Model.Line Model.Thickline
-                       Proofs.Line Proofs.Thickline Proofs.ThicklineCheck Proofs.ThicklineGrid Proofs.ThicklineNoDup.
+                       Proofs.Line Proofs.Thickline Proofs.ThicklineCheck Proofs.ThicklineGrid Proofs.ThicklineNoDup Proofs.ThicklineRot Proofs.ThicklineEnds.
 
 Theorem C17_line_first : forall l, line_ok l -> hd_error (line_points l) = Some (l_start l).
 Proof. intros l _. apply line_first. Qed.
@@ -143,10 +143,30 @@ Theorem C17_thick_distance_refuted : exists l w ps p,
   K17_wide_stroke w = true /\ thick_points l w = Some ps /\ In p ps /\ ~ dist_ok l w p.
 Proof. exact thick_distance_refuted. Qed.
 
+(* at most one pixel beyond the two ends -- ALL lines, ALL widths; in fact at most half a major step:
+   -dmaj <= 2 * dot  and  2 * (dot - len^2) <= dmaj, dot = (p - start).(end - start), i.e. the projection of every pixel
+   onto the line lies within dmaj / (2 len) <= 1/2 pixel of the segment.  ends_ok l p (Proofs/ThicklineCheck.v) is the
+   property's form: (0 <= dot \/ dot^2 <= len^2) /\ (dot <= len^2 \/ (dot - len^2)^2 <= len^2). *)
+Theorem C17_thick_within_ends : forall l w ps p,
+  thick_points l w = Some ps -> In p ps ->
+  - ldmaj l <= 2 * dot_to l p /\ 2 * (dot_to l p - (ldx l * ldx l + ldy l * ldy l)) <= ldmaj l.
+Proof. exact thick_points_ends. Qed.
+
+Theorem C17_thick_within_one_pixel_of_ends : forall l w ps p,
+  thick_points l w = Some ps -> In p ps -> ends_ok l p.
+Proof. exact thick_points_ends_ok. Qed.
+
+(* rotation by 90 degrees, rot (x, y) = (-y, x): for every line that is neither axis-parallel nor diagonal the stroke of
+   the rotated line is the rotated stroke, same order (reflections and reversal do not commute with stroking) *)
+Theorem C17_thick_points_rot : forall l w, generic l ->
+  thick_points (rot_line l) w = option_map (map rot) (thick_points l w).
+Proof. exact thick_points_rot. Qed.
+
 (* The remaining clauses -- within w/2 + 2.5 pixels of the ideal line, at most one pixel beyond
    the two ends, at least w - 1 pixels wide at the middle -- for every line of the property's quantifier
-   domain: |dx|, |dy| <= 14 (all pairs of end points of the grid [-7,7]^2, and all their translates anywhere
-   in the plane) and stroke widths 0..9.  thick_ok (Proofs/ThicklineCheck.v):
+   domain: |dx|, |dy| <= 24 (all pairs of end points of the grid [-12,12]^2, and all their translates anywhere
+   in the plane) and stroke widths 0..16 (the sweep runs over one quadrant of deltas plus the axis-parallel and
+   diagonal lines; the other quadrants follow by the rotation equivariance C17_thick_points_rot).  thick_ok (Proofs/ThicklineCheck.v):
      exists ps, thick_points l w = Some ps /\ NoDup ps /\
        (forall p, In p ps -> 4 cross^2 <= (w+5)^2 len^2                       (dist_ok)
                           /\ -len <= dot/len <= len + 1)                       (ends_ok)
@@ -154,7 +174,7 @@ Proof. exact thick_distance_refuted. Qed.
    `_partial`: proved by computation on this finite domain, not for arbitrarily long lines / wide strokes
    (OPEN, see Proofs/ThicklineCheck.v); beyond it the clauses are searched on the implementation (p_thick). *)
 Theorem C17_thick_grid_partial : forall l w,
-  -14 <= ldx l <= 14 -> -14 <= ldy l <= 14 -> 0 <= w <= 9 -> thick_ok l w.
+  -24 <= ldx l <= 24 -> -24 <= ldy l <= 24 -> 0 <= w <= 16 -> thick_ok l w.
 Proof. exact thick_ok_grid. Qed.
 
 Example C17_nonvacuous :
